@@ -24,7 +24,8 @@ import (
 //
 // operand:  v:<id>/<tf> | p:<i>/<tf> | f:<i>/<tf> | c:<ckind>:<hexText>:<hexTypeSan>:<small16>:<fits64>:<int64>:<constPtrId>/<tf>
 //           | g:<hexPkgPath>:<hexName>:<hexTypeSan>/<tf> | b:<hexName>/<tf> | fn:<hexQualifiedName>:<hexSigSan>:<self|ext|local.<hexSuffix>>/<tf> | n
-// tf (type flags of the operand's / value's Go type): 1 integer, 2 string, 4 float, 8 complex, 16 map-or-chan
+// tf (type flags of the operand's / value's Go type): 1 integer, 2 string, 4 float, 8 complex, 16 map-or-chan;
+//    for the SSA interpreter only: 32 unsigned, 64*k width code (1: 8 bits, 2: 16, 3: 32, 4: 64), 512 boolean, 1024 []int
 // refs: <id>:<Kind> of every referrer instruction (DebugRef included, as go/ssa reports them)
 
 func pkgQualifier(p *types.Package) string {
@@ -87,8 +88,31 @@ func typeFlags(t types.Type) int {
 		if info&types.IsComplex != 0 {
 			f |= 8
 		}
+		// bits the canonicaliser never reads; the SSA interpreter (Model/Canon/Sem.lean) does
+		if info&types.IsInteger != 0 {
+			if info&types.IsUnsigned != 0 {
+				f |= 32
+			}
+			switch u.Kind() {
+			case types.Int8, types.Uint8:
+				f |= 1 * 64
+			case types.Int16, types.Uint16:
+				f |= 2 * 64
+			case types.Int32, types.Uint32:
+				f |= 3 * 64
+			case types.Int, types.Int64, types.Uint, types.Uint64, types.Uintptr:
+				f |= 4 * 64 // 64-bit platform
+			}
+		}
+		if info&types.IsBoolean != 0 {
+			f |= 512
+		}
 	case *types.Map, *types.Chan:
 		f |= 16
+	case *types.Slice:
+		if b, ok := u.Elem().(*types.Basic); ok && b.Kind() == types.Int {
+			f |= 1024
+		}
 	}
 	return f
 }
